@@ -1,6 +1,7 @@
-SPECIFICATION XSpec
+INIT MCInit
+NEXT XNext
 CONSTANTS
- Mols <- MCMols
+ Mols = {}
  Dev = "none"
  FixedOrder = TRUE
 INVARIANT LawsAtStart
